@@ -57,6 +57,19 @@ inductive LoopOut where
   | done (s : St)
   | panicked (s : St) (msg : String)
 
+/-- the effect of one `ICC_PROFILE` APP2 segment on the reassembly state (`segment.Data = d`,
+at least 14 bytes, identifier matched, no ICC data or error recorded yet) -/
+def iccChunk (st : St) (d : List UInt8) : St :=
+  let total := (d.getD 13 0).toNat
+  let num := (d.getD 12 0).toNat
+  -- `if iccProfileChunks == nil { iccProfileChunks = make([][]byte, chunkTotal) }`
+  let cs := st.chunks.getD (List.replicate total none)
+  let st := { st with chunks := some cs }
+  if total != cs.length then { st with md := { st.md with icc := .err "inconsistent ICC profile chunk count" } }
+  else if num == 0 || num > cs.length then { st with md := { st.md with icc := .err "invalid ICC profile chunk number" } }
+  else if (cs.getD (num - 1) none).isSome then { st with md := { st.md with icc := .err "duplicated ICC profile chunk" } }
+  else { st with chunks := some (setSlot cs (num - 1) (d.drop 14)), count := st.count + 1 }
+
 def loop : Nat → St → Parser LoopOut
   | 0, _ => fail (.bad "model: out of fuel")
   | fuel+1, st => do
@@ -78,24 +91,10 @@ def loop : Nat → St → Parser LoopOut
         else if d.take 12 != iccId then loop fuel st
         else if st.md.iccSet then loop fuel st
         else
-          let total := (d.getD 13 0).toNat
-          let num := (d.getD 12 0).toNat
-          match st.chunks with
-          | some cs =>
-            if total != cs.length then
-              loop fuel { st with md := { st.md with icc := .err "inconsistent ICC profile chunk count" } }
-            else step fuel st cs num d
-          | none => step fuel { st with chunks := some (List.replicate total none) } (List.replicate total none) num d
+          let st := iccChunk st d
+          -- only a chunk that was stored can complete the set
+          if !st.md.iccSet && st.allExtracted then pure (.done st) else loop fuel st
       else loop fuel st
-where
-  step (fuel : Nat) (st : St) (cs : List (Option (List UInt8))) (num : Nat) (d : List UInt8) : Parser LoopOut :=
-    if num == 0 || num > cs.length then
-      loop fuel { st with md := { st.md with icc := .err "invalid ICC profile chunk number" } }
-    else if (cs.getD (num - 1) none).isSome then
-      loop fuel { st with md := { st.md with icc := .err "duplicated ICC profile chunk" } }
-    else
-      let st := { st with chunks := some (setSlot cs (num - 1) (d.drop 14)), count := st.count + 1 }
-      if st.allExtracted then pure (.done st) else loop fuel st
 
 /-- what follows the loop in `extractMetadata` -/
 def finish (st : St) : Except PErr Meta :=
